@@ -21,6 +21,8 @@ func main() {
 		cmdList(os.Args[2:])
 	case "check":
 		cmdCheck(os.Args[2:])
+	case "baseline":
+		cmdBaseline(os.Args[2:])
 	case "replay":
 		cmdReplay(os.Args[2:])
 	case "selftest":
@@ -137,7 +139,7 @@ func cmdVerify(args []string) {
 		}
 		n, d := 0, 0
 		for _, o := range fc.obls {
-			if !only(o) {
+			if !only(o) || o.Kind == "canary" {
 				continue
 			}
 			n++
@@ -150,6 +152,12 @@ func cmdVerify(args []string) {
 		fmt.Printf("%-50s %d/%d\n", fc.key, d, n)
 		for _, o := range fc.obls {
 			if !only(o) {
+				continue
+			}
+			if o.Kind == "canary" {
+				if o.Status == "unsat" {
+					fmt.Printf("    VACUOUS  %-45s %s\n", o.Name, o.Text)
+				}
 				continue
 			}
 			if o.Status != "unsat" || *verbose {
@@ -170,6 +178,5 @@ func shortFile(f string) string {
 	return f
 }
 
-func cmdCheck(args []string)    { fmt.Println("not implemented"); os.Exit(2) }
 func cmdReplay(args []string)   { fmt.Println("not implemented"); os.Exit(2) }
 func cmdSelftest(args []string) { fmt.Println("not implemented"); os.Exit(2) }
